@@ -59,7 +59,7 @@ POOLS = {
     'alias': (WORD, ['a1', 'al', 'r', 'tot', '"Al 1"', '`ba`', 'x2', '"\'net\'"', '`"bq"`'], None),
     'fname': (WORD, ['f', 'my_func', 'calc2', 'foo_fn'], 'Token.Name'),
     'num': (WORD, ['1', '42', '3.5', '0', '100'], 'Token.Literal.Number'),
-    'str': (WORD, ["'s'", "'it''s'", "'a;b'", "''", "'x y'", "'2020-01-01'", "'C:\\temp\\logs \r\nD:\\x'", "'l1  \n l2'"],
+    'str': (WORD, ["'s'", "'it''s'", "'a;b'", "''", "'x y'", "'2020-01-01'", "'C:\\temp\\logs \r\nD:\\x'", "'l1  \n l2'", "'ab[...]'", "'abcd\u2026'", "'wait...'"],
             'Token.Literal.String.Single'),
     'ph': (WORD, ['?', '%s', ':p1', '$1', '%(nm)s'], 'Token.Name.Placeholder'),
     'typename': (WORD, ['integer', 'text', 'varchar', 'numeric'], None),
@@ -79,13 +79,16 @@ POOLS = {
     'rbr': (PUNCT, [']'], 'Token.Punctuation'),
     'dcolon': (PUNCT, ['::'], 'Token.Punctuation'),
     'semi': (PUNCT, [';'], 'Token.Punctuation'),
+    'colon': (PUNCT, [':'], 'Token.Punctuation'),
+    'materialized': (WORD, ['materialized', 'MATERIALIZED'], None),
     'go': (WORD, ['GO', 'go', 'Go'], 'Token.Keyword'),
 }
 
 GAPS = {
     'blank': [' '],
     'ws': [' ', '  ', '\t', '\n', '\r\n', ' \n  ', '\n\n'],
-    'cmt': [' ', '\n', ' /* c */ ', '/* c */', ' -- c\n', ' /* a\n b */ ', '\n-- x; y\n', ' /*+ h */ ', ' ', ' ', ' # c\n', ' /* x **/ '],
+    'cmt': [' ', '\n', ' /* c */ ', '/* c */', ' -- c\n', ' /* a\n b */ ', '\n-- x; y\n', ' /*+ h */ ', ' ', ' ', ' # c\n', ' /* x **/ ',
+            ' --\n', ' -- c.\n'],
     'cmtx': [' ', ' /* a \r\n b */ ', ' /* t  \n*/ ', '\n', ' -- c\r\n', " -- don't\n", ' /* 5" */ ', '/***/', '\n# h; c\n'],
 }
 
@@ -171,6 +174,8 @@ def fuses(wa, wb):
 def need_gap(a, b):
     """is a non-empty gap required between labels a and b (else tokens would fuse)?"""
     ca, cb = POOLS[a][0], POOLS[b][0]
+    if a in ('dqname', 'btname') and b == 'lp':
+        return False     # `"t"(n)`: a quoted name delimits itself
     if ca == WORD and b == 'lp' and a != 'fname':
         return True      # `where(`, `then(` would be lexed as a function name: keep keywords apart from `(`
     return PUNCT not in (ca, cb)
